@@ -216,13 +216,19 @@ def run_case(case):
                 for lname, xl in layouts(x, rng):
                     y = cx.call("sum_except_batch", tu.sum_except_batch, (xl, k))
                     ref = _np(x).reshape(tuple(shape[:k]) + (-1,)).sum(-1)
-                    good = tuple(y.shape) == tuple(shape[:k]) and np.allclose(_np(y), ref, rtol=1e-5, atol=1e-5)
+                    tol_ = 1e-12 if dt == torch.float64 else 1e-5
+                    good = tuple(y.shape) == tuple(shape[:k]) and np.allclose(_np(y), ref, rtol=tol_, atol=tol_)
                     ok(good, "sum_except_batch", "utils.sum_except_batch wrong reduction", shape=list(shape), k=k,
                        layout=lname, got_shape=list(y.shape))
                     r.cell("sum_except_batch", len(shape), k, lname)
             y = tu.sum_except_batch(x)
             ok(tuple(y.shape) == (shape[0],), "sum_except_batch", "utils.sum_except_batch default keeps batch",
                shape=list(shape))
+        # double-precision sums stay double-precision accurate: terms that a single-precision accumulator cannot hold
+        xb = torch.tensor([[2.0 ** 24, 1.0, 1.0, 1.0], [1e10, 1.0, -1e10, 0.25]], dtype=torch.float64)
+        yb = tu.sum_except_batch(xb)
+        ok(yb.dtype == torch.float64 and yb.tolist() == [2.0 ** 24 + 3.0, 1.25], "sum_except_batch",
+           "utils.sum_except_batch loses double precision", got=yb.tolist(), dtype=str(yb.dtype))
         empty_leading(r, ok, "sum_except_batch", lambda x, n: tu.sum_except_batch(x, min(n, x.dim())),
                       lambda x, n: np.zeros(x.shape[:min(n, x.ndim)]))
         r.sample({"fn": "sum_except_batch", "shape": list(shapes[-1]), "k": 1})
@@ -385,6 +391,11 @@ def run_case(case):
                 ref = np.array([(1 if (i % 2 == 0) == even else 0) for i in range(D)], dtype=np.uint8)
                 ok(m.dtype == torch.uint8 and np.array_equal(_np(m), ref), "create_alternating_binary_mask",
                    "utils.alternating mask wrong pattern", D=D, even=even, got=_np(m).tolist())
+                # the returned mask belongs to the caller (who may flip or re-use it): the next call gives the documented pattern
+                m.fill_(1 - int(m[0]))
+                m2 = tu.create_alternating_binary_mask(D, even=even)
+                ok(np.array_equal(_np(m2), ref), "create_alternating_binary_mask",
+                   "utils.alternating mask wrong pattern after the caller modified an earlier result", D=D, even=even, got=_np(m2).tolist())
             ones = (D + 1) // 2
             try:
                 m = tu.create_mid_split_binary_mask(D)
@@ -394,6 +405,10 @@ def run_case(case):
             ref = np.array([1] * ones + [0] * (D - ones), dtype=np.uint8)
             ok(m.dtype == torch.uint8 and np.array_equal(_np(m), ref), "create_mid_split_binary_mask",
                "utils.mid-split mask wrong pattern/count", D=D, got=_np(m).tolist())
+            m.copy_(1 - m)
+            m2 = tu.create_mid_split_binary_mask(D)
+            ok(np.array_equal(_np(m2), ref), "create_mid_split_binary_mask",
+               "utils.mid-split mask wrong pattern after the caller modified an earlier result", D=D, got=_np(m2).tolist())
             seen = set()
             for rep in range(8):
                 try:
